@@ -18,7 +18,7 @@ func init() {
 		Covers:         "promql: Engine.execEvalStmt (evaluator literals), evaluator.rangeEval, evaluator.gatherVector, evaluator.rangeEvalAgg (step loop).",
 		NotCover:       "state that individual functions or aggregations keep across steps (EvalNodeHelper caches), float results, the storage iterators; the incremental range-vector window is decided under C28.R2.",
 		Run:            runC27,
-		MinObligations: 45,
+		MinObligations: 55,
 	})
 }
 
